@@ -177,7 +177,13 @@ func Transform(jsonData []byte) (result []byte, e error) {
 							setError("Missing surrogate")
 						} else {
 							// Output the UTF-32 code point as UTF-8
-							rawString.WriteRune(utf16.DecodeRune(firstUTF16, getUEscape()))
+							codePoint := utf16.DecodeRune(firstUTF16, getUEscape())
+							if codePoint == '\uFFFD' {
+								// not a high surrogate followed by a low surrogate
+								setError("Invalid surrogate pair")
+							} else {
+								rawString.WriteRune(codePoint)
+							}
 						}
 					} else {
 						// Single UTF-16 code identical to UTF-32.  Output as UTF-8
